@@ -247,7 +247,7 @@ class H2(Case):
         if v == "sym_p":
             p = inp.arr("p", (3,))
         else:
-            vals = {"p110": [1, 1, 0], "p123": [1, 2, 3], "p1m12": [1, -1, 2], "p011": [0, 1, 1], "p212": [2, 1, 2]}[v]
+            vals = {"p110": [1, 1, 0], "p123": [1, 2, 3], "p1m12": [1, -1, 2], "p011": [0, 1, 1], "p212": [2, 1, 2], "p101": [1, 0, 1]}[v]
             p = inp.const(np.array(vals, dtype=float)).real if inp.mode == "real" else inp.const(np.array(vals, dtype=float))
         O = np.empty((3, 3), dtype=complex if inp.mode == "real" else object)
         for i in range(3):
@@ -279,7 +279,11 @@ class H2(Case):
         Ud = dagger(np.asarray(U, dtype=complex if inp.mode == "real" else object))
         one = np.identity(3) if inp.mode == "real" else sym.obj_eye(3)
         Dg = b._coupling_operator
-        obs = [Ob.eq("transform is unitary", np.asarray(U).dot(Ud), one, key="unitary"),
+        offd = np.array([Dg_ij for Dg_ij in (b._coupling_operator[i, j] for i in range(3) for j in range(3) if i != j)],
+                        dtype=complex if inp.mode == "real" else object)
+        zero6 = np.zeros(6) if inp.mode == "real" else inp.const(np.zeros(6))
+        obs = [Ob.eq("stored coupling operator is diagonal", offd, zero6, key="diagonal"),
+               Ob.eq("transform is unitary", np.asarray(U).dot(Ud), one, key="unitary"),
                Ob.eq("reproduces the operator", np.asarray(U).dot(Dg).dot(Ud), O, key="reproduces"),
                Ob.eq("eigenvalues real", np.array([Dg[i, i].imag for i in range(3)], dtype=Dg.dtype), np.zeros(3) if inp.mode == "real" else inp.const(np.zeros(3)), key="real-eigenvalues")]
         return extra + obs
@@ -314,7 +318,7 @@ def cases(tier):
           H1("mf", 2, "su2", 1, "id"), H1("tempo", 2, "su2", 1, "id", unique=True), H1("mf", 2, "su2", None, "id", unique=True),
           H1("tempo", 1, "su2", None, "gen", unique=True), H1("tempo", 1, "su2", None, "gen"), H1("mf", 1, "su2", None, "gen"), H1("pt", 2, "su2", None, "gen0"),
           H1("tempo", 2, "rot", 1, "gen0"), H1("pt", 2, "rot", 1, "gen0"), H1("tempo", 3, "su2", 1, "gen0"), H1("pt", 3, "su2", 1, "gen0"),
-          H2("p110"), H2("p123"), H2("p011")]
+          H2("p110"), H2("p123"), H2("p011"), H2("p101")]
     if tier == "thorough":
         cs += [H1("tempo", 3, "su2", 1, "id"), H1("pt", 3, "su2", 1, "id"), H1("mf", 3, "su2", None, "id"), H1("tempo", 2, "rot", None, "gen"),
                H1("pt", 2, "rot", None, "gen"), H1("tempo", 2, "su2", None, "gen0"), H1("mf", 3, "su2", 1, "gen0"), H2("p212"), H2("p1m12")]
